@@ -2,11 +2,22 @@
 use crate::check::Ctx;
 
 pub mod c01;
+pub mod c12;
+pub mod c13;
+pub mod c14;
+pub mod c15;
+pub mod c16;
 pub mod common;
 
 pub fn dispatch(ctx: &Ctx, args: &[String]) -> i32 {
     match ctx.prop.as_str() {
         "C01" => c01::run(ctx),
+        "C12" => c12::run(ctx),
+        "C13" => c13::run(ctx),
+        "C14" => c14::run(ctx),
+        "C15" => c15::run(ctx),
+        "C16" => c16::run(ctx),
+        "C16-child" => c16::child(ctx, args),
         "dump" => common::dump(ctx, args),
         other => {
             eprintln!("unknown property {other}");
